@@ -675,6 +675,74 @@ def run_reduce(ctx, n: int, styles=("static", "symbolic", "none"), label="reduce
             agree += 1
     ctx.count(f"tgraph-{label}-terms-matched", matched)
     ctx.count(f"tgraph-{label}-lean-eval-agrees-with-onnxruntime", agree)
+    run_reduce_nullable(ctx, max(40, n // 4), styles, label)
+
+
+def run_reduce_nullable(ctx, n, styles, label):
+    """sum / prod of nullable integer arrays: the values-and-null graph vs `sumNullableGraph` / `prodNullableGraph`
+    (Props/C10GraphSum.lean: sum_nullable_graph_correct), and the Lean evaluation vs onnxruntime with junk payloads."""
+    rng = random.Random(f"tgraph/{label}-nullable/{ctx.seed}")
+    cases = [c for c in reduce_cases(rng, n * 4) if c["fn"] in ("sum", "prod") and c["dtype"] != "bool" and not c["acc"]][:n]
+    lines = [f"tg_render n{c['fn']} {CODE[c['dtype']]} {c['rank']} {c['axis_tok']} {int(c['keepdims'])} ~" for c in cases]
+    want = common.model(lines)
+    eval_lines, eval_meta = [], []
+    matched = 0
+    for c, line, w in zip(cases, lines, want):
+        style = rng.choice(styles)
+        shape = tuple(rng.choice([1, 2, 3]) for _ in range(c["rank"]))
+        dims = decl_dims(style, shape, "R")
+        x = ndx.array(shape=dims, dtype=impl.dt("n" + c["dtype"]))
+        try:
+            y = getattr(ndx, c["fn"])(x, axis=c["axis"], keepdims=c["keepdims"])
+            model = ndx.build({"x": x}, {"y": y})
+            outs = [o.name for o in model.graph.output]
+            got = render(model, "y", {"x_values": "in0", "x_null": "in1"}) if outs == ["y"] else f"outputs:{outs}"
+        except Unsupported as e:
+            got = f"unsupported:{e}"
+        except TypeError:
+            got = "err TypeError"
+        except Exception as e:
+            got = f"raised {type(e).__name__}: {str(e)[:120]}"
+        ctx.case((label + "-nullable", c["fn"], c["dtype"], c["rank"], c["axis_tok"], c["keepdims"], style), True,
+                 {"call": line, "dims": str(dims), "exported": got[:300]} if len(ctx.samples) < 12 else None)
+        ctx.count(f"tgraph-{label}-nullable:{c['fn']}")
+        if got != w:
+            ctx.corr_broken(f"tgraph-term/n{c['fn']}", {"call": line, "dims": str(dims), "exported": got[:800], "model": w[:800]})
+            continue
+        matched += 1
+        if got.startswith("err"):
+            continue
+        npd = np.dtype(c["dtype"])
+        for shp in ([shape] if style == "static" else [shape, tuple(rng.choice([0, 1, 2, 3]) for _ in range(c["rank"]))]):
+            size = int(np.prod(shp))
+            vals = np.array([rng.choice([0, 1, 2, 3, 5, -1 if npd.kind == "i" else 4]) for _ in range(size)], dtype=npd).reshape(shp)
+            null = np.array([rng.random() < 0.4 for _ in range(size)], dtype=bool).reshape(shp)
+            junk = np.where(null, np.array(np.iinfo(npd).max, dtype=npd), vals)        # payloads under nulls: the type's maximum
+            try:
+                res = impl.run_model(model, {"x_values": junk, "x_null": null}, {"y": y})["y"]
+            except Exception:
+                continue
+            eval_lines.append(f"tg_evald {_tok(shp)}:{_ints(junk.astype(object).reshape(-1).tolist())};{_tok(shp)}:{_ints(null.astype(int).reshape(-1).tolist())} {got}")
+            eval_meta.append((line, shp, res, c, vals, null))
+    ans = common.model(eval_lines)
+    agree = 0
+    for a, (line, shp, res, c, vals, null) in zip(ans, eval_meta):
+        exp = f"ok {_tok(res.shape)} {_ints([int(v) for v in res.reshape(-1).tolist()])}"
+        # NumPy oracle on the non-null data: nulls are absent
+        acc = (np.uint64 if c["fn"] == "sum" else np.uint32) if vals.dtype.kind == "u" else np.int64
+        neutral = 0 if c["fn"] == "sum" else 1
+        with np.errstate(all="ignore"):
+            ref = NP_REDUCE[c["fn"]](np.where(null, np.array(neutral, dtype=vals.dtype), vals).astype(acc), axis=c["axis"], keepdims=c["keepdims"])
+        if np.shape(ref) != res.shape or not np.array_equal(np.asarray(ref), res):
+            ctx.violation(f"{c['fn']}/n{c['dtype']}/nulls-not-absent/exported-model-differs-from-numpy",
+                          f"{line} values={vals.tolist()} null={null.tolist()}: exported model gives {res.tolist()}, NumPy on the non-null data {np.asarray(ref).tolist()}",
+                          {"call": line, "values": vals.tolist(), "null": null.tolist(), "observed": res.tolist(), "expected": np.asarray(ref).tolist()})
+        elif a != exp:
+            ctx.corr_broken("tgraph-eval-vs-onnxruntime/reduce-nullable", {"call": line, "shape": list(shp), "lean": a[:300], "onnxruntime": exp[:300]})
+        else:
+            agree += 1
+    ctx.count(f"tgraph-{label}-nullable-terms-matched", matched)
+    ctx.count(f"tgraph-{label}-nullable-lean-eval-agrees-with-onnxruntime", agree)
 
 
 def search_reduce(ctx, c, rng, why):
